@@ -521,6 +521,11 @@ def convert_params(params, cnt):
         if ty == '':
             # unnamed parameter: type only
             ty, name = name, 'unnamed%d' % len(out)
+        elif (re.fullmatch(r'(?:(?:const|volatile)\s*)+', ty) or
+              name in ('int', 'char', 'short', 'long', 'unsigned', 'bool', 'float', 'double')) and not arr:
+            # unnamed parameter whose type has several words (`const UnRepOpts`, `const unsigned int`): the last
+            # word is part of the type, not a name
+            ty, name = ty + ' ' + name, 'unnamed%d' % len(out)
         if '&' in ty:
             ty = ty.replace('&', '*')
             refs.append(name)
